@@ -211,14 +211,29 @@ package das
 // The worker's helpers: fetching a header and sampling it write nothing in the worker; recording an
 // outcome leaves the job description alone, stores the height as current, and counts a failure of
 // that height in the result's failed map.
+// (the header store's errors are its own: it never reports "outside the sampling window" - assumed)
+//@ extern local (github.com/celestiaorg/go-header.Getter).GetByHeight
+//@   ensures err == nil || !is(err, availability.ErrOutsideSamplingWindow)
 //@ func (*worker).getHeader
 //@   property C04
 //@   requires w != nil
+//@   ensures err == nil || !is(err, availability.ErrOutsideSamplingWindow)
 // (the sampler reads the header it is given)
-//@ func (*worker).sample
-//@   property C04
+// (call-site view of sample: nothing is promised to the worker loop beyond what it checks itself. Body view:
+// a height is reported as outside the sampling window only when the sampler said so for this height's header,
+// and as sampled only when the sampler returned nil - a header that cannot be loaded is an error like any
+// other, recorded as failed and retried, never a silent skip.)
+//@ extern (*github.com/celestiaorg/celestia-node/das.worker).sample
 //@   requires w != nil
-//@   param .sampleFn: ensures true
+//@ func (*worker).sample
+//@   property C04 C13
+//@   requires w != nil && !$SaysOutside && !$SampleOK
+//@   havoc $SaysOutside $SampleOK
+//@   param .sampleFn: ensures $SaysOutside <==> is($result, availability.ErrOutsideSamplingWindow)
+//@   param .sampleFn: ensures $SampleOK <==> $result == nil
+//@   callpre worker).getHeader: $arg2 == height
+//@   checks is(result, availability.ErrOutsideSamplingWindow) ==> $SaysOutside
+//@   checks result == nil ==> $SampleOK
 //@ func (*worker).setResult
 //@   property C04 C13
 //@   requires w != nil && w.state.result.failed != nil
